@@ -318,3 +318,95 @@ def check_rotate(nprog=400, seed=11):
                 first = first or (src, f"differs on tape {tape}: {run(c1, tape)} vs {run(c2, tape)}", ast.unparse(t2))
                 break
     return {"programs": nprog, "rewritten": rewritten, "mismatches": mismatches, "first": first}
+
+
+def check_probe(nprog=400, seed=13):
+    """Differential for `_probe_while` of the term evaluator (`B = 1 << K; while B: ...; B >>= 1` -> for / range, with induction variables)."""
+    from .symeval import _probe_while
+
+    rnd = random.Random(seed)
+    rewritten = mismatches = 0
+    first = None
+    for _ in range(nprog):
+        K = rnd.choice([0, 1, 3, 5, 6])
+        c0 = rnd.choice([0, 0, 1, 4])
+        test = rnd.choice(["bit", "bit", "bit != 0", "bit > 0"])
+        pool = ["if m & bit:\n            log(idx)", "res += idx", "x = nxt()", "if x > 7:\n            break", "log(bit)", "res += 1", "if m & bit:\n            res += bit", "log(idx * 2)"]
+        body = [rnd.choice(pool) for _ in range(rnd.randint(1, 4))]
+        r = rnd.random()
+        if r < 0.7:
+            body.insert(rnd.randint(0, len(body)), "idx += 1")
+        elif r < 0.8:
+            body.insert(rnd.randint(0, len(body)), "idx += 2")  # not an induction variable of step one: left as it is
+        elif r < 0.9:
+            body += ["idx += 1", "idx += 1"]  # advanced twice
+        if rnd.random() < 0.08:
+            body.insert(rnd.randint(0, len(body)), "if x == 3:\n            continue")  # would skip the shift: must be left alone
+        shift = rnd.choice(["bit >>= 1", "bit >>= 1", "bit = bit >> 1", "bit >>= 2"])
+        after = rnd.choice(["return res", "return res", "return (res, idx)", "return (res, bit)", "idx = 0\n    return (res, idx)", "bit = 9\n    return (res, bit)"])
+        src = ("def prog(nxt, log, risky):\n    res = 0\n    x = 0\n    m = (nxt() * 37) %% 128\n    idx = %d\n    bit = 1 << %d\n    while %s:\n        %s\n        %s\n    %s\n"
+               % (c0, K, test, "\n        ".join(body), shift, after))
+        t1, t2 = ast.parse(src), ast.parse(src)
+        fn = t2.body[0]
+        j, w = [(j, s_) for j, s_ in enumerate(fn.body) if isinstance(s_, ast.While)][0]
+        try:
+            f = _probe_while(w, fn, {"bit": ("const", 1 << K), "idx": ("const", c0)})
+        except Exception as err:  # noqa: BLE001
+            mismatches += 1
+            first = first or (src, f"rewrite raised {type(err).__name__}: {err}", None)
+            continue
+        if f is None:
+            continue
+        rewritten += 1
+        fn.body[j] = f
+        ast.fix_missing_locations(t2)
+        c1, c2 = compile(t1, "<orig>", "exec"), compile(t2, "<for>", "exec")
+        for _ in range(10):
+            tape = [rnd.randint(0, 9) for _ in range(rnd.randint(0, 12))]
+            if run(c1, tape) != run(c2, tape):
+                mismatches += 1
+                first = first or (src, f"differs on tape {tape}: {run(c1, tape)} vs {run(c2, tape)}", ast.unparse(t2))
+                break
+    return {"programs": nprog, "rewritten": rewritten, "mismatches": mismatches, "first": first}
+
+
+def check_alias(nprog=400, seed=17):
+    """Differential for the buffer-alias rewrite of the front end (sa/aliasfields.py): a class with a bytearray field used through locals,
+    original against rewritten, on random tapes."""
+    from .aliasfields import inline_buffer_aliases
+
+    rnd = random.Random(seed)
+    rewritten = mismatches = 0
+    first = None
+    for _ in range(nprog):
+        fill = rnd.choice(["b += d", "b += d", "self._buf += d", "self._buf = self._buf + d", "b = b + d", "self._buf = b + d", "b += d\n        b += d[:1]"])
+        take = rnd.choice(["x = b[:n]\n        self._buf = b[n:]", "x = self._buf[:n]\n        self._buf = self._buf[n:]", "x = b[:n]\n        self._buf = b[n:]\n        x = x + b[:1]",
+                           "x = b[:n]\n        del b[:n]", "x = b[:n]\n        self._buf = bytearray(b[n:])"])
+        head = rnd.choice(["b = self._buf", "b = self._buf", "b = bytearray(self._buf)", "b = self._buf\n        c = b"])
+        loop = rnd.choice(["while len(b) < k:\n            if not self.fill():\n                break", "for _ in range(3):\n            if len(b) < k:\n                self.fill()\n            out.append(len(b))",
+                           "for _ in range(3):\n            self.fill()\n            out.append(bytes(self.take(1)))\n            out.append(len(b))", "self.fill()\n        out.append(len(b))"])
+        tail = rnd.choice(["out.append(bytes(self.take(2)))", "out.append(bytes(self.take(2)))\n        out.append(len(b))", "out.append(len(b))\n        out.append(bytes(self.take(1)))"])
+        src = ("class W:\n    def __init__(self, nxt):\n        self._buf = bytearray()\n        self._nxt = nxt\n\n"
+               "    def fill(self):\n        b = self._buf\n        v = self._nxt()\n        if v == 0:\n            return False\n        d = bytes([v]) * (v %% 3 + 1)\n        %s\n        return True\n\n"
+               "    def take(self, n):\n        b = self._buf\n        %s\n        return x\n\n"
+               "    def go(self, k):\n        out = []\n        %s\n        %s\n        %s\n        return (out, bytes(self._buf))\n\n"
+               "def prog(nxt, log, risky):\n    w = W(nxt)\n    r1 = w.go(3)\n    r2 = w.go(5)\n    return (r1, r2)\n") % (fill, take, head, loop, tail)
+        t1, t2 = ast.parse(src), ast.parse(src)
+        try:
+            n_ = inline_buffer_aliases(t2)
+        except Exception as err:  # noqa: BLE001
+            mismatches += 1
+            first = first or (src, f"rewrite raised {type(err).__name__}: {err}", None)
+            continue
+        if not n_:
+            continue
+        rewritten += 1
+        ast.fix_missing_locations(t2)
+        c1, c2 = compile(t1, "<orig>", "exec"), compile(t2, "<alias>", "exec")
+        for _ in range(8):
+            tape = [rnd.randint(0, 9) for _ in range(rnd.randint(0, 14))]
+            if run(c1, tape) != run(c2, tape):
+                mismatches += 1
+                first = first or (src, f"differs on tape {tape}: {run(c1, tape)} vs {run(c2, tape)}", ast.unparse(t2))
+                break
+    return {"programs": nprog, "rewritten": rewritten, "mismatches": mismatches, "first": first}
